@@ -213,14 +213,18 @@ KillOwn(cfg, wl, s, cids, h) ==
 \* E5 step 2: pool-level victims by score usage^2/allocation, descending, stable (C11)
 ScoreGt(c, d) == ProdCmp(<<c.mem, c.mem, d.ram>>, <<d.mem, d.mem, c.ram>>) = 1
 Candidates(s, k) == SelectSeq(s.pools[k].active, LAMBDA cid : ~s.ctr[cid].done /\ s.ctr[cid].mem > 0)
-RECURSIVE InsertByScore(_, _, _)
-InsertByScore(s, sorted, x) ==          \* after every element that does not score strictly lower
+ScoreEq(c, d) == ProdCmp(<<c.mem, c.mem, d.ram>>, <<d.mem, d.mem, c.ram>>) = 0
+\* x is killed before y: strictly higher score; scores EXACTLY tied may come out either way in floating point, so among
+\* tied candidates the observed victims (hint, trace validation only) go first; otherwise the pool's container order (stable sort)
+Before(s, x, y, h) == ScoreGt(s.ctr[x], s.ctr[y]) \/ (ScoreEq(s.ctr[x], s.ctr[y]) /\ x \in h.pool /\ y \notin h.pool)
+RECURSIVE InsertByScore(_, _, _, _)
+InsertByScore(s, sorted, x, h) ==          \* after every element it does not come strictly before
   IF sorted = <<>> THEN <<x>>
-  ELSE IF ScoreGt(s.ctr[x], s.ctr[Head(sorted)]) THEN <<x>> \o sorted
-  ELSE <<Head(sorted)>> \o InsertByScore(s, Tail(sorted), x)
-RECURSIVE SortByScore(_, _, _)
-SortByScore(s, todo, acc) == IF todo = <<>> THEN acc ELSE SortByScore(s, Tail(todo), InsertByScore(s, acc, Head(todo)))
-KillOrder(s, k) == SortByScore(s, Candidates(s, k), <<>>)
+  ELSE IF Before(s, x, Head(sorted), h) THEN <<x>> \o sorted
+  ELSE <<Head(sorted)>> \o InsertByScore(s, Tail(sorted), x, h)
+RECURSIVE SortByScore(_, _, _, _)
+SortByScore(s, todo, acc, h) == IF todo = <<>> THEN acc ELSE SortByScore(s, Tail(todo), InsertByScore(s, acc, Head(todo), h), h)
+KillOrder(s, k, h) == SortByScore(s, Candidates(s, k), <<>>, h)
 
 OverCap(cfg, s, k, next, h) == s.pools[k].cons > cfg.ramcap \/ (s.pools[k].cons = cfg.ramcap /\ next \in h.pool)
 RECURSIVE KillLoop(_, _, _, _, _, _)
@@ -229,7 +233,7 @@ KillLoop(cfg, wl, s, k, cands, h) ==
   ELSE KillLoop(cfg, wl, Kill(wl, s, Head(cands)), k, Tail(cands), h)
 KillPool(cfg, wl, s, k, h) ==
   IF s.crash # "" THEN s
-  ELSE LET order == KillOrder(s, k) IN
+  ELSE LET order == KillOrder(s, k, h) IN
        IF order = <<>> THEN s ELSE KillLoop(cfg, wl, s, k, order, h)
 
 RECURSIVE Reap(_, _, _, _)
